@@ -573,7 +573,7 @@ def run(ctx):
     corpus_e = [("ABCDEF", "ABXDEF", [None, 0, 1, 2]), ("", "", [None, 0]), ("", "ACGT", [None, 0, 3, 4, 5]),
                 ("GATTACA", "GCATGCU", [None, 0, 1, 2, 3, 4, 5]), ("kitten", "sitting", [None, 1, 2, 3, 4]),
                 ("A" * 40, "A" * 20 + "C" + "A" * 19, [None, 0, 1]), ("ACGT" * 10, "TGCA" * 10, [None, 5, 10, 20, 40])]
-    rnd = gen_random_edit(rng, ctx.n(500, 12000), ctx.n(60, 120))
+    rnd = gen_random_edit(rng, ctx.n(500, 3000), ctx.n(60, 80))
     t0 = time.time()
     rawr, failr, l2r = check_edit(ctx, corpus_e + rnd, "random", fast=True, name="C19r", shard=200)
     ctx.log(f"edit random: {len(rawr)} pairs, {time.time()-t0:.0f}s")
